@@ -204,9 +204,24 @@ impl<Ef: LabEffect> Direct<Ef> {
             // a holder's loop `while !cmd.is_done() { take outputs }` relies on this: done means
             // nothing is left to take
             let done_first = cmd.is_done();
-            let effects: Vec<Ef> = cmd.effects().collect();
-            let leave_events = !flush && rng.chance(1, 2);
+            // sometimes take the first effect only (`effects().next()`), sometimes all of them
+            let take_one = !flush && rng.chance(1, 3);
+            let effects: Vec<Ef> = if take_one { cmd.effects().next().into_iter().collect() } else { cmd.effects().collect() };
+            let leave_events = take_one || (!flush && rng.chance(1, 2));
             let events: Vec<Event> = if leave_events { vec![] } else { cmd.events().collect() };
+            if !take_one && !leave_events {
+                // `effects()` ran the command until it settled: nothing can turn up behind it
+                let late: Vec<Ef> = cmd.effects().collect();
+                if !late.is_empty() {
+                    out.anomalies.push(format!(
+                        "effects() did not run the command until it settled: {} more effect(s) right after it returned",
+                        late.len()
+                    ));
+                    for e in late {
+                        obs_effect(e, &mut self.table, out);
+                    }
+                }
+            }
             if done_first && (!effects.is_empty() || !events.is_empty()) {
                 out.anomalies.push(format!(
                     "is_done() was true while outputs were still queued: effects={} events={}",
@@ -303,6 +318,23 @@ impl<Ef: LabEffect> Host for Direct<Ef> {
     }
     fn act(&mut self, action: &Action) -> Obs {
         let mut out = Obs::default();
+        if self.lag.is_some() {
+            // the action may be about a request this holder has not taken yet: take the rest first
+            fn missing(table: &HashMap<Key, ReqObj>, a: &Action) -> bool {
+                match a {
+                    Action::Resolve { site, arg, .. } | Action::DropReq { site, arg } => !table.contains_key(&(*site, *arg)),
+                    Action::Batch(subs) => subs.iter().any(|s| missing(table, s)),
+                    _ => false,
+                }
+            }
+            if missing(&self.table, action) {
+                let cmd = self.cmd.as_mut().expect("started");
+                let rest: Vec<Ef> = cmd.effects().collect();
+                for e in rest {
+                    obs_effect(e, &mut self.table, &mut out);
+                }
+            }
+        }
         match action {
             Action::Resolve { site, arg, val } => {
                 let obj = self.table.get_mut(&(*site, *arg)).expect("request in table");
